@@ -134,6 +134,12 @@ func propC04(o *out, r *rng, thorough bool) {
 		n = 150000
 	}
 	corpus := loadCorpus("statements.json")
+	// statements a later validation stage would reject: odd argument counts and kinds, unmutated
+	for _, kind := range stmtKinds {
+		for i := 0; i < n/60+3; i++ {
+			c04One(o, genOddStatement(r, kind), nil, "odd:"+kind)
+		}
+	}
 	for i := 0; i < n; i++ {
 		var base string
 		if r.chance(1, 2) && len(corpus) > 0 {
@@ -175,7 +181,10 @@ func propC04(o *out, r *rng, thorough bool) {
 		"SELECT x =~ 1 FROM m", "SELECT v FROM m WHERE x =~ y", "SELECT v FROM m WHERE x !~", "SELECT v FROM m WHERE x =~ $p", "SELECT v FROM m WHERE =~ /a/", "SELECT * FROM", "SELECT", "",
 		";", ";;;", " ", "\x00", "SELECT v FROM m GROUP BY time()", "SELECT top() FROM m", "SELECT v FROM m fill()", "SELECT v FROM m tz()", "SELECT v FROM m tz(1)", "SELECT v FROM a.b.c.d",
 		"SELECT v FROM m LIMIT -1", "SELECT v FROM m LIMIT 99999999999999999999", "SELECT 1e5 FROM m", "SELECT 99999999999999999999 FROM m", "SELECT 9999999999999999999s FROM m",
-		"SELECT v FROM m WHERE time > 1.5.5", "KILL QUERY 99999999999999999999", "DROP SHARD -1", "CREATE RETENTION POLICY p ON d DURATION 1h REPLICATION 0", "SELECT v INTO FROM m"} {
+		"SELECT v FROM m WHERE time > 1.5.5", "CREATE CONTINUOUS QUERY q ON d BEGIN SELECT count(v) INTO t FROM m GROUP BY time() END",
+		"CREATE CONTINUOUS QUERY q ON d BEGIN SELECT count(v) INTO t FROM m GROUP BY time(x) END", "CREATE CONTINUOUS QUERY q ON d BEGIN SELECT count(v) INTO t FROM m GROUP BY time(1s, 2s, 3s) END",
+		"CREATE CONTINUOUS QUERY q ON d RESAMPLE FOR 1s BEGIN SELECT count(v) INTO t FROM m GROUP BY time(0s) END", "CREATE CONTINUOUS QUERY q ON d BEGIN SELECT count(v) INTO t FROM m GROUP BY host, time(1) END",
+		"CREATE CONTINUOUS QUERY q ON d BEGIN SELECT count(v) FROM m GROUP BY time(1m) END", "CREATE CONTINUOUS QUERY q ON d BEGIN SELECT v INTO t FROM m END garbage", "KILL QUERY 99999999999999999999", "DROP SHARD -1", "CREATE RETENTION POLICY p ON d DURATION 1h REPLICATION 0", "SELECT v INTO FROM m"} {
 		for _, ps := range []map[string]interface{}{nil, {"p": int64(1)}, {"p": "s"}, {"p": map[string]interface{}{"regex": "("}}, {"p": map[string]interface{}{"duration": "zz"}}, {"p": float64(-1.5)}, {"p": true}} {
 			c04One(o, w, ps, "witness")
 		}
